@@ -9,11 +9,6 @@ namespace K
 variable {α : Type} [Add α] [Sub α] [Mul α] [Div α] [Neg α] [LT α] [LE α]
   [DecidableLT α] [DecidableLE α] [OfScientific α] [KOps α]
 
-/-- mirrors: distortion.rs::DistortionKind -/
-inductive DistortionKind where
-  | hardClip | softClip
-deriving DecidableEq, Repr
-
 /-- mirrors: distortion.rs::Distortion (+ the pending commands of its `CommandReaders`) -/
 structure Distortion (α : Type) where
   kind : DistortionKind
@@ -27,9 +22,10 @@ namespace Distortion
 
 /-- mirrors: DistortionBuilder::build (defaults Decibels::IDENTITY, Mix::WET) -/
 def new (kind : DistortionKind) (drive mix : Value α α) : Distortion α :=
+  gen_body%
   { kind := kind
-    drive := Parameter.new drive (0.0 : α)
-    mix := Parameter.new mix (1.0 : α)
+    drive := Parameter.new drive Gen.distortionDefaultDrive
+    mix := Parameter.new mix Gen.distortionDefaultMix
     cmdKind := none, cmdDrive := none, cmdMix := none }
 
 /-- mirrors: Effect::init (trait default: nothing) -/
